@@ -291,6 +291,44 @@ where
                     out.push(ev1.to_string());
                     ev = json!({"op":"Mark","w":wi+1,"h":hj(e),"res":mid,"new":true,"panic":""});
                 }
+                "lcreate_marked" => {
+                    // MarkedBuilder for LazyBuilder: the marking is queued and applied by maintain;
+                    // optionally the entity is marked directly in between (the existing marker must win)
+                    // or `.marked()` is given twice
+                    let e = {
+                        let ents = w.entities();
+                        let lazy = w.read_resource::<LazyUpdate>();
+                        let mut b = lazy.create_entity(&ents);
+                        if let Some(a) = op["a"].as_u64() {
+                            b = b.with(SA(a as u32));
+                        }
+                        b = b.marked::<M>();
+                        if op["twice"].as_bool() == Some(true) {
+                            b = b.marked::<M>();
+                        }
+                        b.build()
+                    };
+                    handles[wi].push(e);
+                    let mut ev1 = json!({"op":"Create","w":wi+1,"h":hj(e),"a":[],"b":[],"panic":""});
+                    ev1["obs"] = obs::<M>(w);
+                    out.push(ev1.to_string());
+                    if op["premark"].as_bool() == Some(true) {
+                        let r = {
+                            let mut ms = w.write_storage::<M>();
+                            let mut al = w.write_resource::<M::Allocator>();
+                            al.mark(e, &mut ms).map(|(m, new)| (m.idjs(), new))
+                        };
+                        let mut ev2 = match r {
+                            Some((id, new)) => json!({"op":"Mark","w":wi+1,"h":hj(e),"res":[id],"new":new,"panic":""}),
+                            None => json!({"op":"Mark","w":wi+1,"h":hj(e),"res":[],"new":false,"panic":""}),
+                        };
+                        ev2["obs"] = obs::<M>(w);
+                        out.push(ev2.to_string());
+                    }
+                    w.maintain();
+                    let mid = w.read_storage::<M>().get(e).map(|m| json!([m.idjs()])).unwrap_or(json!([]));
+                    ev = json!({"op":"LazyMarked","w":wi+1,"h":hj(e),"a":opt1(&op["a"]),"res":mid,"panic":""});
+                }
                 "ecreate" => {
                     let e = w.entities().create();
                     handles[wi].push(e);
